@@ -95,4 +95,11 @@ TEXT = {
         design_ref="DESIGN.md sections 3 (C07) and 4",
         level_note=NOTE_COMMON + " The checker reads the factorization through the guarded friend declaration; hooks are additive and off without SPECTRA_VERIF.",
         technique="online trace checker at guarded hook points (invariant assertions against an extended-precision reference model), ASan+UBSan build"),
+    "C03": dict(
+        level_text="Exploration: ~5600 (quick) random call histories per run on 14 instantiations of the generalized symmetric solvers (all five modes, dense/sparse pairings, both triangles, both storage "
+                   "orders, three scalar types) with only the documented triangle stored; pencil residual in the user's original pencil, M-orthonormality and membership of every returned value in the "
+                   "reference generalized spectrum judged in long double with mode-specific back-transformation bounds; clean-domain seeded exploration + fixed corpus (condition up to 1e8).",
+        design_ref="DESIGN.md sections 3 (C03) and 4",
+        level_note=NOTE_COMMON,
+        technique="runtime oracle (extended-precision pencil residual / M-orthonormality monitor at the public accessors) over seeded histories + fixed regression corpus, ASan+UBSan build"),
 }
